@@ -602,12 +602,28 @@ func (e *SpecEnv) call(n SCall) *Val {
 			sfail("heapOf(\"pkg.Type\", \"Field\")")
 		}
 		t := e.x.P.resolveType(e.pkg, ts.S)
-		path, ok := fieldPath(t, fs.S, 0)
+		fname, sub := fs.S, ""
+		for _, sfx := range []string{".arr", ".off", ".len"} {
+			// a slice-typed field has three columns: heapOf("T", "Field.arr" / ".off" / ".len")
+			if strings.HasSuffix(fname, sfx) {
+				fname, sub = strings.TrimSuffix(fname, sfx), sfx
+			}
+		}
+		path, ok := fieldPath(t, fname, 0)
 		if !ok {
 			sfail("heapOf: %s has no field %s", typeString(t), fs.S)
 		}
 		prefix, ft := pathPrefix(t, path)
 		fl := flatten(ft)
+		if sub != "" {
+			var pick []Leaf
+			for _, l := range fl {
+				if l.Path == sub {
+					pick = append(pick, l)
+				}
+			}
+			fl = pick
+		}
 		if len(fl) == 2 && classify(ft) == VBig {
 			// math.Int / sdk.Dec: the number column (the nil flag is the other leaf)
 			for _, l := range fl {
@@ -621,6 +637,20 @@ func (e *SpecEnv) call(n SCall) *Val {
 			sfail("heapOf: field %s is not a scalar", fs.S)
 		}
 		_, h := e.st.heapArr(t, Leaf{prefix + fl[0].Path, fl[0].Sort, fl[0].Ref}, false)
+		return &Val{K: VArr, T: h}
+	case "rowsOf":
+		// rowsOf("ElemType"): the heap of all backing arrays of slices with that (scalar: integer, pointer, string) element
+		// type, indexed by backing-array reference, then by backing index
+		ts, ok := n.Args[0].(SStrLit)
+		if !ok {
+			sfail("rowsOf(\"ElemType\")")
+		}
+		t := e.x.P.resolveType(e.pkg, ts.S)
+		fl := flatten(t)
+		if len(fl) != 1 {
+			sfail("rowsOf: element type %s is not a scalar", typeString(t))
+		}
+		_, h := e.st.heapArr(t, fl[0], true)
 		return &Val{K: VArr, T: h}
 	case "off":
 		v := e.eval(n.Args[0])
